@@ -182,6 +182,8 @@ def ops():
             out.append(('set', p, v))
         out.append(('get', p))
         out.append(('in', p))
+        out.append(('getattr', p))            # the attribute form of the same lookups
+        out.append(('hasattr', p))
         out.append(('del', p))
         out.append(('pop', p))
         out.append(('popd', p))
@@ -219,6 +221,10 @@ def apply_real(d, op):
             return ('val', plain(d[op[1]]))
         if k == 'in':
             return ('val', op[1] in d)
+        if k == 'getattr':
+            return ('val', plain(getattr(d, op[1])))
+        if k == 'hasattr':
+            return ('val', hasattr(d, op[1]))
         if k == 'del':
             del d[op[1]]
             return ('ok',)
@@ -255,8 +261,14 @@ def apply_model(m, op):
                 return ('refused',)
             m_set(m, op[1], copy.deepcopy(op[2]))
             return ('ok',)
-        if k == 'get':
+        if k in ('get', 'getattr'):
             return ('val', plain(m_get(m, op[1])))
+        if k == 'hasattr':
+            try:
+                m_get(m, op[1])
+                return ('val', True)
+            except KeyError:
+                return ('val', False)         # any other failure of the lookup escapes hasattr like it escapes the lookup
         if k == 'in':
             try:
                 m_get(m, op[1])
@@ -350,9 +362,9 @@ def run_sequence(seq):
             r = ('fail',)
         if w[0] in ('error', 'refused'):
             w = ('fail',)
-        if op[0] == 'in' and w == ('val', False) and r == ('fail',) and through_value(m, op[1]):
+        if op[0] in ('in', 'hasattr') and w == ('val', False) and r == ('fail',) and through_value(m, op[1]):
             continue          # calibration: membership of a path running through a (subscriptable) value raises like the lookup does
-        if op[0] == 'in' and '[' in op[1] and w == ('val', False) and r == ('fail',):
+        if op[0] in ('in', 'hasattr') and '[' in op[1] and w == ('val', False) and r == ('fail',):
             continue          # calibration: membership of an index path whose list does not exist raises like the lookup does
         if op[0] in ('pop', 'popd') and '[' in op[1] and (r == ('fail',) or w == ('fail',)) and plain(d) == before_plain:
             continue          # calibration: popping through / at an index whose list is missing, or a list element itself, is unspecified (no mutation happened)
